@@ -42,9 +42,18 @@ def run(ctx):
                          "reference": a, "interrupted": b}, "engine.final", kind="history")
 
 
+    # map / parallel results (BatchResult with per-branch errors) are replayed from the context's record
+    from harness import comp_executor
+    comp_executor.run_prop(ctx, "C02", n_quick=100, n_thorough=2500)
+
+
 def search(ctx):
     comp_engine.search(ctx, "C02")
 
 
 def replay(ctx, rec):
-    comp_engine.replay(ctx, rec, "C02")
+    if "blocks" in (rec["case"].get("scenario") or {}):
+        from harness import comp_executor
+        comp_executor.replay(ctx, rec, "C02")
+    else:
+        comp_engine.replay(ctx, rec, "C02")
